@@ -71,7 +71,9 @@ def gen_definition(rng, fam):
     writers = []
 
     def bad():
-        return rng.choice([L.ctx("nope"), L.e("ctx().x.k.z"), L.e("1 + 'a'", "1 + 'a'"), L.e("nofunc(1)")])
+        return rng.choice([L.ctx("nope"), L.e("ctx().x.k.z"), L.e("1 + 'a'", "1 + 'a'"), L.e("nofunc(1)"),
+                           L.e("list().first()", "[] | first | int"), L.e("1 / 0"), L.e("list(1)[5]", "[1][5].k"),
+                           L.e("dict(a=>1).b.c", "{'a': 1}.b.c"), L.e("int('x')", "'x' | int(base=99)")])
 
     def maybe_bad(v):
         return bad() if rng.random() < fam["p_bad"] else v
